@@ -279,12 +279,15 @@ def r04_4(ctx: Ctx):
         # result stored back in the same slot
         sts = [s for s in C.stores_to(p, tkind='sub') if key_of(s.d['base']) == key_of(fv)]
         ok_s = False
+        result_dropped = False
         if sts and slot is not None:
             s = sts[-1]
             ok_s = key_of(s.d['value']) == key_of(c.d['result']) and isinstance(slot_norm(s.d['field']), RF) and \
                 slot_norm(s.d['field']).equals(slot)
         elif not sts and ok_h:
-            ok_s = True      # the holder is written in place and stays in its slot
+            # nothing is stored back: acceptable only if the recorded value is read from the *returned* holder
+            ok_s = True
+            result_dropped = True
         ctx.check(ok_s, rid, c.func.short, loc, 'the returned holder is stored in the slot it was taken from',
                   'the holder returned by the objective is stored in a different slot than the one passed in',
                   key=f'{rid}::{c.func.short}::same-slot')
@@ -300,7 +303,8 @@ def r04_4(ctx: Ctx):
                 if isinstance(za, tuple) and za[0] == 'attr' and za[2] == 'value':
                     h = za[1]
                     if isinstance(h, tuple) and h[0] == 'sub' and h[1] == key_of(fv):
-                        ok_z = slot_norm(C.rf_from_key(h[2])).equals(slot)
+                        # read from the slot: it holds the objective's result only if the result was stored there
+                        ok_z = slot_norm(C.rf_from_key(h[2])).equals(slot) and not result_dropped
                     elif h == key_of(c.d['result']):
                         ok_z = True
             ok_z = ok_z and p.events.index(zs[-1]) > p.events.index(c) and \
@@ -308,8 +312,11 @@ def r04_4(ctx: Ctx):
                 (key_of(item), key_of(c.d['result']))
         ctx.check(ok_z, rid, er.short, er.loc(zs[-1].node) if zs else er.loc(),
                   'the recorded value z is .value of the slot the objective wrote, set after the call',
-                  'the value recorded for the trial is not read from the holder slot the objective wrote (or is '
-                  'recorded before the call)', key=f'{rid}::{er.short}::z-from-slot')
+                  'the value recorded for the trial is not read from the holder the objective returned: '
+                  + ('the result of Problem.Calculate is discarded and the value is read from the holder that was '
+                     'passed in, which an objective returning a new holder never fills'
+                     if result_dropped else 'it is not the slot the objective wrote, or it is recorded before the call'),
+                  key=f'{rid}::{er.short}::z-from-slot')
     ctx.floor(rid, 'paths of the evaluation routine with one objective call', n, 1)
 
 
@@ -407,7 +414,7 @@ def r04_6(ctx: Ctx):
         ctx.check(q in allowed, rid, m.func.short, m.loc(), f'writer of a trial field is an allowed routine: {m.text()[:60]}',
                   f'a trial field is written outside the evaluation routine and the local refinement: {m.text()}',
                   key=ctx.key_for(rid, m.func, m.node))
-    ctx.floor(rid, 'write sites of trial fields in the library', n, 5)
+    ctx.floor(rid, 'write sites of trial fields in the library', n, 3)
     # setters are conduits: called only from the evaluation routine
     for sq in setters:
         for (caller, _nid) in ctx.pta.callers.get(sq, ()):
